@@ -123,6 +123,23 @@ def _concrete_one(inp):
                     if not close(fits[j](x, T), want, 1e-8):
                         bad.append("single curve: returned fit%d(%r, %r) = %r, Arrhenius re-scaling of the best-fit search result at the curve temperature gives %r"
                                    % (j + 1, x, float(T), float(fits[j](x, T)), float(want)))
+    else:
+        # several curves, explicit and pairwise different orders: the returned functions are what the public search gives for exactly those orders
+        from pyvaporation.optimizer.optimizer import find_best_fit
+        curves = realrun.curve_set(pz.mixture, 2, i.get("curve_basis", "weight"))
+        orders = dict(n_first=1, m_first=0, n_second=2, m_second=1)
+        try:
+            mo = getattr(pz, i["kind"])(conditions=cond, diffusion_curve_set=curves, number_of_steps=2, delta_hours=i["dt"], precision=i.get("prec") or 5e-5, **orders)
+        except ValueError:
+            mo = None
+        if mo is not None:
+            for j, (n_, m_) in enumerate(((orders["n_first"], orders["m_first"]), (orders["n_second"], orders["m_second"]))):
+                ms = (Measurements.from_diffusion_curves_first if j == 0 else Measurements.from_diffusion_curves_second)(curves)
+                search = find_best_fit(ms, n=n_, m=m_, component_index=j)
+                for x, T in ((0.2, 318.0), (0.7, 329.0)):
+                    if not close(mo.permeance_fits[j](x, T), search(x, T), 1e-7):
+                        bad.append("returned fit%d(%r, %r) = %r, but find_best_fit(n=%d, m=%d) on that component's measurements gives %r"
+                                   % (j + 1, x, T, float(mo.permeance_fits[j](x, T)), n_, m_, float(search(x, T))))
     return {"ok": not bad, "detail": "%s: %s" % (i["kind"], "; ".join(bad[:3])), "inputs": i}
 
 
@@ -145,7 +162,8 @@ def _check_fit_calls(job, tag, ps, cs, inputs, n_curves):
         for d, (x, t, p) in zip(data, pts):
             neg += [lift(d.x) != lift(x), lift(d.t) != lift(t), lift(d.p) != lift(p)]
         job.prove(tag + "/measurements_of_component%d" % (i + 1), cs, neg, R_, inputs)
-        orders_ok = c["n"] == 1 and (c["m"] == 0 if n_curves == 1 else c["m"] == 1)
+        want_n, want_m = ps.requested_orders(i)
+        orders_ok = c["n"] == want_n and c["m"] == want_m
         job.record(tag + "/requested_orders_component%d" % (i + 1), "discharged" if orders_ok else "violated", "n=%r m=%r" % (c["n"], c["m"]), nontrivial=False,
                    replay={"fn": R_, "inputs": {"kind": ps.kind}})
 
@@ -267,8 +285,8 @@ def curve(job, mode, tier):
                         P0 = tuple(build.perm(v, u) for v, u in ps._P00) if init_perm and hasattr(ps, "_P00") else ps.P0
                         return ps.pz.non_ideal_diffusion_curve(diffusion_curve_set=ps.curves, feed_temperature=ps.T0, initial_feed_composition=ic,
                                                                delta_composition=dx, number_of_steps=N, permeate_temperature=ps.Tp, permeate_pressure=ps.Pp,
-                                                               initial_permeances=P0, precision=ps.prec, n_first=1, n_second=1,
-                                                               m_first=None if n_curves == 1 else 1, m_second=None if n_curves == 1 else 1)
+                                                               initial_permeances=P0, precision=ps.prec, n_first=1, n_second=2,
+                                                               m_first=None if n_curves == 1 else 1, m_second=None if n_curves == 1 else 3)
 
                     if init_perm:
                         ps._P00 = [(P.value, P.units) for P in ps.P0]
